@@ -400,3 +400,81 @@ Fixpoint compile_go (concat : bool) (pack : N) (calls : list call)
   end.
 Definition compile_calls (concat : bool) (pack : N) (calls : list call) : list cmd :=
   compile_go concat pack calls [] first_priority 0 0.
+
+(* ===================================================================================================
+   Vocabulary of the theorems (props/C05.v): counters, the sync section, reachability, enabledness,
+   the termination measure.  Nothing below is used by `step`. *)
+Open Scope nat_scope.
+
+Definition b2n (b : bool) : nat := if b then 1 else 0.
+Fixpoint cnt {A} (f : A -> bool) (l : list A) : nat :=
+  match l with [] => 0 | x :: r => b2n (f x) + cnt f r end.
+
+Definition is_tok_item (i : item) : bool := ttok (itask i).
+Definition is_tok_op (o : pop) : bool := match o with OPush t => ttok t | OPoll => false end.
+Definition ntok_items (s : state) : nat := cnt is_tok_item (items s).      (* tokens queued *)
+Definition ntok_todo (s : state) : nat := cnt is_tok_op (todo s).          (* tokens the producer has still to push *)
+
+(* between the pull of a token and the release of barrier 3 (B4): a worker still inside Barrier::wait number 3
+   whose generation has already changed is logically out *)
+Definition insec (g : nat) (w : worker) : bool :=
+  match pc w with
+  | WBar _ | WPhase _ => true
+  | WBarW k g' => negb (k =? 3) || (g' =? g)
+  | _ => false
+  end.
+Definition nsec (s : state) : nat := cnt (insec (bgen s)) (ws s).
+(* number of barriers of the current round that a worker in the section has (logically) passed *)
+Definition stage (g : nat) (p : wpc) : option nat :=
+  match p with
+  | WBar k => Some k
+  | WBarW k g' => if g' =? g then Some k else if k =? 3 then None else Some (S k)
+  | WPhase k => Some (S k)
+  | _ => None
+  end.
+
+Inductive reachable (pa : params) (script : list cmd) : state -> Prop :=
+| reach_init : reachable pa script (init pa script)
+| reach_step : forall s l s', reachable pa script s -> step pa s l = Some s' -> reachable pa script s'.
+
+(* a non-stuttering step *)
+Definition progress (pa : params) (s : state) (l : label) (s' : state) : Prop :=
+  step pa s l = Some s' /\ stutter s l = false.
+Definition enabled (pa : params) (s : state) (t : tid) : Prop :=
+  exists l s', tid_of l = t /\ progress pa s l s'.
+Definition final (s : state) : Prop := pst s = PDone /\ Forall (fun w => pc w = WExited) (ws s).
+
+(* every maximal sequence of non-stuttering steps from s is finite and ends in a final state, and every
+   non-final state on the way has a thread with an enabled non-stuttering step *)
+Inductive ends_final (pa : params) (s : state) : Prop :=
+| ef_final : final s -> ends_final pa s
+| ef_step : (exists t, enabled pa s t) ->
+            (forall l s', progress pa s l s' -> ends_final pa s') -> ends_final pa s.
+
+(* termination measure: (A, claimable) in lexicographic order *)
+Definition opw (o : pop) : nat := match o with OPush _ => 17 | OPoll => 1 end.
+Definition pstw (p : pstate) : nat := match p with PRun => 2 | PWokenF => 1 | PJoin => 1 | PWaitF => 0 | PDone => 0 end.
+Definition wpw (c : bool) (p : wpc) : nat :=
+  match p with
+  | WExited => 0
+  | WWaitE => if c then 3 else 1
+  | WWokenE => 2
+  | WPull => 3
+  | WSeg _ => 4
+  | WBar k => 14 - 3 * k
+  | WBarW k _ => 13 - 3 * k
+  | WPhase k => 12 - 3 * k
+  end.
+Definition wsum (c : bool) (l : list worker) : nat := list_sum (map (fun w => wpw c (pc w)) l).
+Definition measureA (s : state) : nat :=
+  list_sum (map opw (todo s)) + pstw (pst s) + 14 * length (items s) + wsum (closed s) (ws s)
+  + (if closed s then 0 else 2 * length (ws s)).
+Definition measure (s : state) : nat * nat := (measureA s, claimable s).
+Definition mlt (a b : nat * nat) : Prop := fst a < fst b \/ (fst a = fst b /\ snd a < snd b).
+
+(* ghost bookkeeping used by final_complete *)
+Definition inflight (l : list worker) : list N :=
+  flat_map (fun w => match pc w with WSeg q => [q] | _ => [] end) l.
+Definition qctg (l : list item) : list N := map iseq (filter (fun i => negb (is_tok_item i)) l).
+Definition nctg_todo (l : list pop) : nat := cnt (fun o => match o with OPush t => negb (ttok t) | OPoll => false end) l.
+Close Scope nat_scope.
